@@ -319,7 +319,13 @@ theorem verify_gsap_bounds {c : Cfg} (h : verify .GSAP c = true) :
 theorem verify_osap_bounds {c : Cfg} (h : verify .OSAP c = true) :
     2 ≤ c.minMatchLen ∧ c.minMatchLen ≤ c.maxMatchLen ∧ c.cost = Facts.defCost := by
   simp only [verify, Bool.and_eq_true, decide_eq_true_eq] at h
-  exact ⟨h.1.2.1, h.1.2.2, h.2⟩
+  exact ⟨h.1.1.2.1, h.1.1.2.2, h.1.2⟩
+
+/-- GSAP and OSAP: `BufferSize ≤ MaxInt32` (fix for D18: the suffix array has `int32` entries) -/
+theorem verify_sap_bufferSize {k : Kind} {c : Cfg} (hk : k = .GSAP ∨ k = .OSAP)
+    (h : verify k c = true) : c.bufferSize ≤ 2147483647 := by
+  rcases hk with rfl | rfl <;>
+    simp only [verify, Bool.and_eq_true, decide_eq_true_eq] at h <;> exact h.2
 
 theorem verify_sap_minMatch {k : Kind} {c : Cfg} (hk : k = .GSAP ∨ k = .OSAP)
     (h : verify k c = true) : 2 ≤ c.minMatchLen := by
